@@ -72,6 +72,10 @@ class Judge(object):
 
     def feed(self, idx, line, ans):
         w = line.strip().split(" ")
+        if w[0] != "co" and getattr(self, "cos", None) and w[0] != "init":
+            # a crawl-batch generator was dropped half-way: the reference does not know how far it got
+            self.cos = {}
+            self.lost = True
         try:
             if w[0] == "?":
                 if not self.lost:
@@ -107,6 +111,8 @@ class Judge(object):
                     return self.write(idx, line, ["batch", data], ans[5:])
                 return self.write(idx, line, ["batch", data], ans)
             raise Unknown()
+        if w[0] == "init":
+            self.cos = {}
         if w[0] in ("init", "clear", "overwrite"):
             self.max_id = 0
             self.epis = {}
